@@ -19,7 +19,8 @@
 struct sk_kernel *K;
 size_t sk_arena_size;
 int (*sk_env_pull)(void);
-void (*sk_yield_hook)(int kind); /* C20: called at the entry of every kernel-relevant call made by the parent process */
+void (*sk_yield_hook)(int kind);
+void (*sk_on_term_later)(int handle); /* free-running mode: a child that dies some time after SIGTERM received it */ /* C20: called at the entry of every kernel-relevant call made by the parent process */
 void (*sk_on_hang)(const char *what);
 int sk_cur = 0;  /* process index this REAL process is executing as (0 = parent) */
 static int arena_used;
@@ -728,6 +729,7 @@ int __wrap_kill(pid_t pid, int sig)
     if (c->nsigs < 16) { c->sigs[c->nsigs].sig = sig; c->sigs[c->nsigs].t = K->now; c->nsigs++; }
     if (sig == SIGKILL) sk_child_exit(pi, SIGKILL);
     else if (sig == SIGTERM && c->term == TERM_NOW) sk_child_exit(pi, SIGTERM);
+    else if (sig == SIGTERM && c->term == TERM_LATER && sk_on_term_later) sk_on_term_later(c->handle);
   }
   return 0;
 }
